@@ -35,11 +35,14 @@ Fixpoint anon_fill (fs : fields) (fvs : list fvt) : outcome (list val * bool) :=
       | (f, v) :: fr =>
           if str_eqb n (sf_name f) then
             a <- assign_or_convert v t ;;
-            let v := match a with Some v' => v' | None => v end in
-            x <- (if exported n then set_into t v else Panic 3) ;;
-            let nil1 := nilable5 (fst v) && is_vnil (snd v) in
-            b <- anon_fill r fr ;;
-            Ok (x :: fst b, nil1 && snd b)
+            match a with
+            | None => Err 20        (* neither assignable nor convertible: an error (fix: commit), no longer Set's panic *)
+            | Some v =>
+                x <- (if exported n then set_into t v else Panic 3) ;;
+                let nil1 := nilable5 (fst v) && is_vnil (snd v) in
+                b <- anon_fill r fr ;;
+                Ok (x :: fst b, nil1 && snd b)
+            end
           else
             b <- anon_fill r fvs ;;
             Ok (zero t :: fst b, snd b)
